@@ -86,7 +86,7 @@ func init() {
 		Assumptions: []string{"blockSize scaled to 32/64 by AST rewrite of the current source (Level 1); mmap granule scaled to 128",
 			"I/O never fails", "ideal checksum stands in for CRC-32 on symbolic bytes"},
 		Bounds: map[string]string{
-			"quick":    "scaled block 32: 1 record of every length 0..70 (keys 1-2 bytes), 2 records of every length pair 0..34; FileIO and MMap; single write and staged flush; all byte contents symbolic. REAL 32 KiB block: 2 records whose lengths the solver enumerates over every value that puts the record end within 9 bytes of a block boundary (records up to 2 blocks), single writes and a staged flush, concrete pattern content with symbolic first/last bytes",
+			"quick":    "scaled block 32: 1 record of every length 0..70 (keys 1-2 bytes), 2 records of every length pair 0..34; FileIO and MMap; single write and staged flush; all byte contents symbolic. REAL 32 KiB block: 2 records whose lengths the solver enumerates over every value that puts the record end within 9 bytes of a block boundary (records up to 2 blocks), single writes and a staged flush, concrete pattern content with symbolic first/last bytes; plus close + reopen (same or the other back-end), re-read of every record, append of one more record of every length, re-read",
 			"thorough": "scaled block 32/64: 1 record 0..100, 2 records 0..70 each, 3 records 0..34 each; FileIO and MMap; single writes and staged multi-record flush; all byte contents symbolic. REAL 32 KiB block: 3 records (2 in boundary classes), records up to 3 blocks, staged flush of 3, mmap",
 		},
 		Outside: "at the real 32 KiB geometry only record ends within 9-12 bytes of a block boundary are enumerated (the scaled tiers cover every offset of a 32/64-byte block); files beyond 4 blocks (32-bit wrap of blockID*blockSize); more than 3 records per file; I/O errors",
